@@ -204,6 +204,27 @@ impl Prop for C02 {
             },
         ));
         f.push(Family::new(
+            "magnitudes",
+            Mode::Full,
+            "all binary trees with 2..=3 leaves x 4 operators over literals of extreme magnitude [0.0000000000000001, 0.000001, 0.1, 0.2, 0.3, 1, 3, 123456789012, 0] and 5Y / 4Z: tiny but non-zero divisors (also as rounding residues such as 0,3 - 0,1 - 0,2), huge quotients, exact zeros",
+            move |ch| {
+                let lits: [(&str, Option<char>); 11] = [("0.0000000000000001", None), ("0.000001", None), ("0.1", None), ("0.2", None), ("0.3", None), ("1", None), ("3", None), ("123456789012", None), ("0", None), ("5", Some('Y')), ("4", Some('Z'))];
+                fn t(ch: &mut Chooser, n: usize, lits: &[(&str, Option<char>)]) -> Expr {
+                    if n == 1 {
+                        let (l, s) = *ch.pick(lits);
+                        return Expr::Lit(l.to_string(), s);
+                    }
+                    let left = 1 + ch.choose(n - 1);
+                    let op = *ch.pick(&OPS);
+                    let l = t(ch, left, lits);
+                    let r = t(ch, n - left, lits);
+                    Expr::Bin(op, Box::new(l), Box::new(r))
+                }
+                let n = 2 + ch.choose(2);
+                Some(Case { expr: t(ch, n, &lits), style: Style::Minimal, assign: None })
+            },
+        ));
+        f.push(Family::new(
             "suffix",
             Mode::Full,
             "each magnitude suffix k K M G T P Z Y on literals [1, 2.5, -3] alone, as left and right operand of each operator, and inside parentheses",
